@@ -1,1 +1,13 @@
 # add(pid, category, technique, level text, level note, design ref) -- one entry per built check
+
+add("C19", "model_checking",
+    "TLA+ contract (SetMap) + implementation-shaped splay model (Splay) checked exhaustively by TLC; real src/set.c explored breadth-first by a harness and every recorded call validated by TLC against the contract (trace validation); real vs model transition relation compared for drift",
+    "TLC explores Splay.tla completely over 7 keys (2 676 tree shapes, 101 688 transitions; thorough: 8 keys, 11 149 / 479 407), checking search-tree order, list = in-order walk, count, and refinement to the sorted-map contract on every transition. The real set.c is driven through every call from every reachable shape over the same keys for each stock comparator (int incl. INT_MIN/INT_MAX/+-2e9, case-variant char*, void*, node address), and TLC evaluates result, size, first/next/prev order, cleanup-exactly-once and the structural audit on every recorded call; plus model-generated behaviours and long seeded random histories over 64-200 keys.",
+    "Exhaustive for <=7 (thorough <=8) keys; larger universes sampled. Node-address comparator explored exhaustively with no_dispose removals only (disposal covered by random histories). Memory safety observed through ASan/UBSan only. Quick tier uses 6 keys for the two pointer comparators.",
+    "DESIGN.md 6 (C19), 5.3")
+
+add("C20", "model_checking",
+    "explicit TLA+ specification of the loader (ModLoad.tla) model-checked with TLC against the ordering contract (ModLoadContract.tla), bound to src/module.c by running every case on the real daemon with stub modules and validating each event log with TLC (ModLoadTrace.tla)",
+    "Every dependency graph with every listing on <=3 modules (self-dependencies, every module_depends call order, optionally one missing module) and on <=4 modules (all 4 096 graphs, calls in name order) is model-checked exhaustively (B => A; 7.4e6 states thorough / 1.7e5 quick). Every <=3-module case, all acyclic 4-module cases and seeded random graphs on 4-6 modules are run on the real daemon, each log judged by TLC and compared with the model's prediction.",
+    "Exhaustive for the stated bounds on the model. On the real code, the <=3-module cases, the drawn cases and the acyclic 4-module cases always run; the cyclic 4-module cases run within a time budget (count in the evidence). Modules are stubs. module_antidepends and module_is_backend are outside the property. Six modules at most.",
+    "DESIGN.md 6 (C20), 5.3")
